@@ -191,20 +191,72 @@ def tsort(triples):
 # calling the implementation
 
 
+def uses_mappers(variant):
+    return (variant // 2) % 2 == 1
+
+
+# what the application's mappers return: ONE dict that the application owns and re-uses (the DOT mappers change the attribute dict
+# they are given in place; what they return is not part of the documented protocol and must not leak into the output)
+APP_DOT_RESULT = {"app": "cache"}
+
+
+def _dot_node_mapper(node, data):
+    data["tag"] = "n"
+    return APP_DOT_RESULT
+
+
+def _dot_edge_mapper(node, data):
+    data["etag"] = "e"
+    return APP_DOT_RESULT
+
+
+def strip_dot_mapper_attrs(lines):
+    """with the mappers above every node statement carries tag="n" and every edge statement etag="e" (after the standard
+    attributes): check that, and take them out again so that the plain parser applies"""
+    try:
+        i_n, i_e = lines.index("  # Node Definitions"), lines.index("  # Edge Definitions")
+    except ValueError:
+        return lines
+    out = []
+    for i, l in enumerate(lines):
+        sect = "n" if i_n < i < i_e else ("e" if i_e < i < len(lines) - 1 else None)
+        if sect and l.strip():
+            attr = ' tag="n"' if sect == "n" else ' etag="e"'
+            if l.endswith(" [" + attr[1:] + "]"):
+                l = l[: -len(" [" + attr[1:] + "]")]
+            elif l.endswith(attr + "]"):
+                l = l[: -len(attr + "]")] + "]"
+            else:
+                raise ParseError(f"DOT: the attribute set by the application's {'node' if sect == 'n' else 'edge'}_mapper is missing or misplaced: {l!r}")
+            if "app=" in l or "cache" in l:
+                raise ParseError(f"DOT: what the application's mapper RETURNED shows up in the output: {l!r}")
+        out.append(l)
+    if APP_DOT_RESULT != {"app": "cache"}:
+        bad = dict(APP_DOT_RESULT)
+        APP_DOT_RESULT.clear()
+        APP_DOT_RESULT.update({"app": "cache"})
+        raise ParseError(f"DOT: the export wrote into the dict that the application's mapper returned: {bad}")
+    return out
+
+
 def call_impl(tree, node, path, fmt, unique, add_self, variant):
     """The raw output of the real export (lines resp. an rdflib graph)."""
     is_tree = not path
     if fmt == "dot":
+        mkw = dict(node_mapper=_dot_node_mapper, edge_mapper=_dot_edge_mapper) if uses_mappers(variant) else {}
         if is_tree:
             if (variant // 7) % 2:
                 s = io.StringIO()
-                tree.to_dotfile(s, add_root=add_self, unique_nodes=unique)
+                tree.to_dotfile(s, add_root=add_self, unique_nodes=unique, **mkw)
                 txt = s.getvalue()
                 if txt and not txt.endswith("\n"):
                     raise ParseError("to_dotfile: last line not terminated")
-                return txt.split("\n")[:-1]
-            return list(tree.to_dot(add_root=add_self, unique_nodes=unique))
-        return list(node.to_dot(add_self=add_self, unique_nodes=unique))
+                lines = txt.split("\n")[:-1]
+            else:
+                lines = list(tree.to_dot(add_root=add_self, unique_nodes=unique, **mkw))
+        else:
+            lines = list(node.to_dot(add_self=add_self, unique_nodes=unique, **mkw))
+        return strip_dot_mapper_attrs(lines) if mkw else lines
     if fmt == "mermaid":
         as_md, title = mermaid_flags(variant)
         s = io.StringIO()
@@ -217,10 +269,64 @@ def call_impl(tree, node, path, fmt, unique, add_self, variant):
             raise ParseError("to_mermaid_flowchart: last line not terminated")
         return txt.split("\n")[:-1]
     if fmt == "rdf":
+        mkw = {}
+        handled = []
+        if uses_mappers(variant) and not (is_tree and add_self):     # Tree.to_rdf_graph() takes no mapper
+            import rdflib
+
+            def node_mapper(graph, graph_node, tree_node):
+                # the application describes LEAVES with even names itself (returns False: "no standard attributes"); every other
+                # node gets one extra triple.  The parent-to-child edge is the export's business in both cases.
+                if not tree_node.children and len(tree_node.name) % 2 == 0:
+                    graph.add((graph_node, rdflib.URIRef(NS + "app_leaf"), rdflib.Literal(tree_node.name)))
+                    handled.append(tree_node)
+                    return False
+                graph.add((graph_node, rdflib.URIRef(NS + "app_seen"), rdflib.Literal(True)))
+                return None
+
+            mkw["node_mapper"] = node_mapper
         if is_tree and add_self:
-            return tree.to_rdf_graph()
-        return node.to_rdf_graph(add_self=add_self)
+            g = tree.to_rdf_graph(**mkw)
+        else:
+            g = node.to_rdf_graph(add_self=add_self, **mkw)
+        if mkw:
+            g = undo_rdf_mapper(g, handled, node, add_self)
+        return g
     raise ValueError(fmt)
+
+
+def undo_rdf_mapper(g, handled, start, add_self):
+    """check the application's own triples, take them out, and put the standard attributes of the nodes the application
+    described itself back in (they must be absent), so that the plain parser and the specification apply"""
+    import rdflib
+
+    seen_p, leaf_p = rdflib.URIRef(NS + "app_seen"), rdflib.URIRef(NS + "app_leaf")
+    ns = rdflib.Namespace(NS)
+    own = {id(n) for n in handled}
+    visited = [n for n in start] + ([start] if add_self and not start.is_system_root() else [])
+    for n in visited:
+        lit = rdflib.Literal(n.data_id)
+        if id(n) in own:
+            if (lit, leaf_p, rdflib.Literal(n.name)) not in g:
+                raise ParseError(f"RDF: the triple added by the application's node_mapper for {n.name!r} is missing")
+        elif (lit, seen_p, rdflib.Literal(True)) not in g and not any(m.data_id == n.data_id and id(m) in own for m in visited):
+            raise ParseError(f"RDF: the node_mapper was not called for {n.name!r} (or its triple is missing)")
+    g.remove((None, seen_p, None))
+    g.remove((None, leaf_p, None))
+    for n in handled:
+        lit = rdflib.Literal(n.data_id)
+        others = [m for m in visited if m.data_id == n.data_id and id(m) not in own]
+        if not others and ((lit, ns["name"], None) in g):
+            raise ParseError(f"RDF: standard attributes were written for {n.name!r} although its node_mapper returned False")
+    for n in handled:
+        lit = rdflib.Literal(n.data_id)
+        if hasattr(n, "kind"):
+            g.add((lit, ns["kind"], rdflib.Literal(n.kind)))
+        g.add((lit, ns["name"], rdflib.Literal(n.name)))
+        if n is not start:      # the start node itself is exported without an index
+            par = n.parent if n.parent is not None else n.tree.system_root
+            g.add((lit, ns["index"], rdflib.Literal([i for i, c in enumerate(par.children) if c is n][0], datatype=rdflib.XSD.integer)))
+    return g
 
 
 def mermaid_flags(variant):
@@ -384,6 +490,8 @@ def do_tree(ctx, out, spec, typed, rot, tag):
                 out.dist["dot tree api:" + ("to_dotfile(StringIO)" if (c["variant"] // 7) % 2 else "to_dot()")] += 1
             if fmt == "mermaid":
                 out.dist["mermaid as_markdown=%s title=%s" % mermaid_flags(c["variant"])] += 1
+            elif uses_mappers(c["variant"]):
+                out.dist[fmt + " with application mappers"] += 1
             if self_clone and unique:
                 out.dist["start node has a clone among its descendants"] += 1
         if clone:
